@@ -187,6 +187,13 @@ def unpickled_register_schedules(ctx, proto, n_dfs, n_rand):
         if msg:
             ctx.violation("unpickled-register", msg, W)
 
+    # (throw-away schedules first: the first traced schedule of a process sees fewer trace events, see c15.warmup)
+    from ..verdict import Ctx as _Ctx
+
+    real_ctx, ctx = ctx, _Ctx("C20", "quick", 0)
+    for _ in range(2):
+        one(S.ReplayChooser([]))
+    ctx = real_ctx
     before = len(ctx.violations)
     for ch in S.dfs_schedules(one, 1, n_dfs):
         if len(ctx.violations) > before:
